@@ -227,7 +227,7 @@ func init() {
 		Teardown: closeEngine,
 		Strata: []*fw.Stratum{
 			{Name: "hazards", Quick: len(c01Hazards), Thorough: len(c01Hazards), Exhaustive: true, Run: runC01Hazards},
-			{Name: "programs", Quick: 5000, Thorough: 40000, Run: runC01},
+			{Name: "programs", Quick: 10000, Thorough: 60000, Run: runC01},
 		},
 	})
 }
